@@ -128,8 +128,15 @@ def fn_myesc(v):
     return "".join(c if c.isalnum() or c in " \n" else "_%x_" % ord(c) for c in _text_of(v))
 
 
+def fn_bresc(v):
+    """custom escaping function that must be *called* for every value, numbers included: the escaped
+    text is wrapped in brackets."""
+    return "[" + fn_myesc(v) + "]"
+
+
 def loader_namespace():
     return {
+        "bresc": fn_bresc,
         "up": fn_up, "wrap": fn_wrap, "ident": fn_ident, "rev": fn_rev, "boom": fn_boom, "myesc": fn_myesc,
         "fns": {"up": fn_up},
     }
@@ -400,7 +407,8 @@ def case_strategy(draw, profile="c19", pools=None, mutate_prob=(0, 3)):
             extends = [relname(name, names[ext[slot]]), draw(st.integers(0, 2)), draw(st.integers(0, len(body)))]
         files.append({"name": name, "extends": extends, "body": body})
     loader = {
-        "autoescape": draw(st.sampled_from(["default", "default", "xhtml_escape", None, "myesc", "url_escape"])),
+        "autoescape": draw(st.sampled_from(pools.get(
+            "loader_autoescapes", ["default", "default", "xhtml_escape", None, "myesc", "url_escape"]))),
         "whitespace": draw(st.sampled_from([None, None, "all", "single", "oneline"])) if profile == "c19" else None,
     }
     mutation = None
